@@ -98,7 +98,7 @@ def _chunk_groupby_args(
     kwargs = locals().copy()
     del kwargs["n_chunks"]
 
-    if isinstance(values, NumbaList):
+    if isinstance(values, (NumbaList, list, tuple)):
         if mask is not None and mask.dtype.kind in "ui":
             assert isinstance(
                 values, np.ndarray
